@@ -7,6 +7,7 @@ import (
 
 	"github.com/talostrading/sonic/codec/websocket"
 
+	shimnet "sonicverif/shim/net"
 	"sonicverif/sim"
 )
 
@@ -62,6 +63,7 @@ var (
 	c08pPeerClose     = sim.RegStat("probe:c08-peer-close-consumed")
 	c08pInvClose      = sim.RegStat("probe:c08-invalid-close-consumed")
 	c08pCloseInFlight = sim.RegStat("probe:c08-asyncclose-still-in-flight-when-the-next-call-is-made")
+	c08pDataEOF       = sim.RegStat("probe:c08-transport-may-report-eof-together-with-the-last-bytes")
 	c08pLocalClose    = sim.RegStat("probe:c08-local-close")
 	c08pAcked         = sim.RegStat("probe:c08-close-handshake-completed-we-started")
 	c08pViolClosed    = sim.RegStat("probe:c08-violation-after-local-close")
@@ -529,10 +531,18 @@ func runC08(c *Ctx, variant int) {
 	if variant < 0 {
 		w.EnableFaults(sim.FSegment, sim.FShortRead, sim.FDelay)
 	}
+	// a transport may report the end of the stream together with the last bytes (tls.Conn): what the peer sent
+	// before it ended the stream is still processed first
+	dataWithEOF := variant < 0 && w.Chance(1, 3)
+	if dataWithEOF {
+		w.Stat(c08pDataEOF)
+		shimnet.EOFWithData = true
+	}
 	if (variant < 0 && w.Chance(1, 2)) || (variant >= 0 && variant%2 == 1) {
 		d.attach()
 		d.mem.Partial = w.Chance(1, 2)
 		d.mem.Defer = w.Chance(1, 3)
+		d.mem.EOFWithData = dataWithEOF
 	} else {
 		d.connect()
 	}
